@@ -1,4 +1,5 @@
 import Sgz.Proofs.IO
+import Sgz.Proofs.WriteOrder
 /-!
 # C18 — partial files never read back as data
 
@@ -22,7 +23,8 @@ in the middle is outside its quantifier.  Every write-prefix state is a byte pre
 regions patched in place later (hash 960–979; in `thorough` mode also the array count 64–67 and the table 980–2047):
 `read_call_pending_patch` covers every sample read in all of them (a sample read uses none of those bytes — any `R`).
 Header regeneration in the `thorough` states *before* the count/table patch (where the header still names 89 stored arrays
-and no footer byte exists, so every lookup reaches beyond the file) is decided by the oracle over captured write logs.
+and no footer byte exists, so every lookup reaches beyond the file): `thorough_header_lookups` below, over the write order
+of `Model/WriteOrder` (tied to the converter by comparing the captured write logs with `WriteOrder.shape`).
 -/
 namespace Sgz.Props.C18
 open Sgz
@@ -54,5 +56,51 @@ def demoFile : File := { len := 6, byte := fun i => if i = 0 then 4 else i }
 example : demoProg.run demoFile = .ok 4 := by rfl
 example : demoProg.run { demoFile with len := 5 } = .error .io := by rfl
 example : IsPrefix { demoFile with len := 5 } demoFile := ⟨by decide, fun _ _ => rfl⟩
+
+/-! ### the write order of a conversion (Model/WriteOrder) -/
+
+/-- **`thorough` mode, every write-prefix state**: a computation that cannot answer without a footer byte and does not use
+the hash field raises in every state up to and including the count / table patches, and raises or agrees with the finished
+file in every state after them -/
+theorem thorough_states {α : Type} (hdr : List Nat) (blocks : List (List Nat)) (cnt tbl : List Nat)
+    (arrays : List (List Nat)) (hash : List Nat) (hh : hash.length = 20) (prog : Prog α)
+    (hneed : WriteOrder.NeedsBeyond (WriteOrder.dataEnd hdr blocks) prog)
+    (hins : Insensitive WriteOrder.hashRegion prog) :
+    let base := WriteOrder.patched hdr blocks cnt tbl
+    let fin := WriteOrder.finished base arrays hash
+    (∀ k, ∃ e, prog.run (WriteOrder.phase1 hdr blocks k) = .error e)
+    ∧ (∃ e, prog.run (WriteOrder.File.patch (WriteOrder.phase1 hdr blocks blocks.length) 64 cnt) = .error e)
+    ∧ (∃ e, prog.run base = .error e)
+    ∧ (∀ j, prog.run (WriteOrder.phase2 base arrays j) = .error .io
+            ∨ prog.run (WriteOrder.phase2 base arrays j) = prog.run fin) :=
+  WriteOrder.thorough_states_raise_or_agree hdr blocks cnt tbl arrays hash hh prog hneed hins
+
+/-- the other modes and routes: every write-prefix state, any computation that does not use the hash field -/
+theorem plain_states {α : Type} (hdr : List Nat) (blocks arrays : List (List Nat)) (hash : List Nat)
+    (hh : hash.length = 20) (prog : Prog α) (hins : Insensitive WriteOrder.hashRegion prog) (k j : Nat) :
+    let base := WriteOrder.phase1 hdr blocks blocks.length
+    let fin := WriteOrder.finished base arrays hash
+    (prog.run (WriteOrder.phase1 hdr blocks k) = .error .io ∨ prog.run (WriteOrder.phase1 hdr blocks k) = prog.run fin)
+    ∧ (prog.run (WriteOrder.phase2 base arrays j) = .error .io
+        ∨ prog.run (WriteOrder.phase2 base arrays j) = prog.run fin) :=
+  WriteOrder.plain_states_raise_or_agree hdr blocks arrays hash hh prog hins k j
+
+/-- a header look-up on a structured file is such a computation: it reads four bytes of every stored array, all in the
+footer (at or beyond the end of the data section, hence beyond 980 too) -/
+theorem thorough_header_lookups {α : Type} (h : HeaderReads.HFile) (il : Nat) (st : HeaderReads.HSt) (t : Nat)
+    (hs : h.structured = true) (h3 : h.is3d = true) (ht : t < h.grid) (hsto : HeaderReads.hasStored h = true)
+    (D : Nat) (hD : D ≤ h.footer) (h980 : 980 ≤ h.footer) (k : List (List Nat) → α) :
+    ∃ o, (HeaderReads.genTraceHeader h il st t false).2 = .ok o
+      ∧ WriteOrder.NeedsBeyond D (WriteOrder.fetchAll o.fetches k)
+      ∧ Insensitive WriteOrder.hashRegion (WriteOrder.fetchAll o.fetches k) := by
+  obtain ⟨o, ho, ⟨f, hf, hlt⟩, hall⟩ := WriteOrder.structured_header_fetches_footer h il st t hs h3 ht hsto
+  refine ⟨o, ho, WriteOrder.fetchAll_needsBeyond D o.fetches ⟨f, hf, by omega⟩ k,
+    WriteOrder.fetchAll_insensitive _ o.fetches ?_ k⟩
+  intro g hg i _
+  have := hall g hg
+  simp only [WriteOrder.hashRegion, Bool.and_eq_false_iff, decide_eq_false_iff_not]
+  right; omega
+
+example : WriteOrder.shape true 2 3 = [.A, .A, .A, .P 64, .P 980, .A, .A, .A, .P 960] := by decide
 
 end Sgz.Props.C18
